@@ -325,6 +325,101 @@ def relational(rep, rng, tier):
             if err > 1e-5:
                 viol.append((f"schedule-dependence:pulse:{method}", f"{method} with max_step=0.1 on a Hamiltonian that vanishes between pulses: {name} misses the pulse result by {err:.2e}", {"method": method, "schedule": name}))
                 break
+    # the real Propagator on closed systems whose generator says nothing at t = 0 about later times (vanishing or Hermitian at
+    # t = 0, lossy afterwards), on Hermitian ones and on constant ones: every answer against a fresh integration
+    so = {"atol": 1e-12, "rtol": 1e-10, "nsteps": 100000, "progress_bar": ""}
+    loss = qutip.sigmax() - 0.5j * qutip.num(2)
+    systems = {"vanishing-at-0": qutip.QobjEvo([[loss, "sin(t)"]]),
+               "hermitian-at-0": qutip.QobjEvo([qutip.sigmaz(), [-0.5j * qutip.num(2), "sin(t)**2"]]),
+               "antihermitian-at-0": qutip.QobjEvo([0.3j * qutip.sigmaz(), [qutip.sigmax(), "t"]]),
+               "hermitian-td": qutip.QobjEvo([qutip.sigmaz(), [qutip.sigmax(), "cos(2*t)"]]),
+               "constant-hermitian": qutip.sigmax() + 0.3 * qutip.sigmaz(), "constant-lossy": loss}
+    for name, Hs in systems.items():
+        try:
+            with core.time_limit(120):
+                P = qutip.Propagator(Hs, options=so)
+                qs = [(2.0, 1.0), (1.5, 0.5), (1.0, 0.0), (0.5, 1.5), (2.0, 1.0), (-0.5, 0.0)]
+                got = [P(t, s) for t, s in qs]
+                fresh = [qutip.Propagator(Hs, options=so)(t, s) if t < s or t < 0 else qutip.propagator(Hs, [s, t], options=so)[-1] for t, s in qs]
+                inv_err = (P.inv(1.5) @ P(1.5) - qutip.qeye(2)).norm()
+                comp_err = (P(2.0, 1.0) @ P(1.0, 0.0) - P(2.0, 0.0)).norm()
+                back = (P(0.5, 1.5) @ P(1.5, 0.5) - qutip.qeye(2)).norm()
+        except core.CaseTimeout:
+            raise
+        except Exception as e:
+            viol.append((f"real-propagator-raises:{name}", f"Propagator on a {name} system: {type(e).__name__}: {e}"[:200], {"system": name}))
+            continue
+        rep.count("relational-real-propagator")
+        rep.evaluations += len(qs) + 3
+        tolp = 2e-5 if name == "constant-hermitian" else 1e-6
+        for (t, s), g, f in zip(qs, got, fresh):
+            if (g - f).norm() > tolp:
+                viol.append(("real-propagator:" + ("backward" if t < s or t < 0 else "t_start"), f"Propagator on a {name} system: U({t}, {s}) differs from a fresh computation by {(g - f).norm():.2e}", {"system": name, "t": t, "t_start": s}))
+                break
+        if inv_err > tolp:
+            viol.append(("real-propagator:inv", f"Propagator on a {name} system: inv(1.5) @ U(1.5) misses the identity by {inv_err:.2e}", {"system": name}))
+        if comp_err > tolp or back > tolp:
+            viol.append(("real-propagator:compose", f"Propagator on a {name} system: U(2,1) U(1,0) misses U(2,0) by {comp_err:.2e}, U(0.5,1.5) U(1.5,0.5) misses the identity by {back:.2e}", {"system": name}))
+    # Floquet solvers: the state reported for time t does not depend on where the run was (re)started - inside the first
+    # period, exactly at a period, or several periods later - nor on the interface; fsesolve starts at tlist[0]
+    try:
+        Tf = 1.0
+        Hf = qutip.QobjEvo([0.5 * qutip.sigmaz(), [0.8 * qutip.sigmax(), "cos(2*pi*t)"]])
+        psif = (qutip.basis(2, 0) + 0.5j * qutip.basis(2, 1)).unit()
+        tlf = np.array([0.0, 0.4, 0.65, 1.0, 1.3, 2.0, 2.75, 3.1])
+        with core.time_limit(300):
+            fb = qutip.FloquetBasis(Hf, Tf, options={"atol": 1e-12, "rtol": 1e-10})
+            seref = qutip.sesolve(Hf, psif, tlf, options={"atol": 1e-12, "rtol": 1e-10, "progress_bar": ""}).states
+            for k0 in (0, 2, 3, 4, 6):
+                rr = qutip.fsesolve(Hf, seref[k0], tlf[k0:], T=Tf).states
+                rep.evaluations += 1
+                rep.count("relational-floquet")
+                errs = [float((a - b).norm()) for a, b in zip(rr, seref[k0:])]
+                if max(errs) > 2e-5:
+                    viol.append(("floquet:fsesolve-start", f"fsesolve started at t={tlf[k0]} from the exact state differs from the evolution by {max(errs):.2e} (at its first time: {errs[0]:.2e})", {"t0": float(tlf[k0])}))
+                    break
+            for t in (0.0, 0.3, 1.0, 1.3, 2.75):
+                rt = fb.from_floquet_basis(fb.to_floquet_basis(psif, t), t)
+                rep.evaluations += 1
+                if (rt - psif).norm() > 1e-6:
+                    viol.append(("floquet:basis-round-trip", f"FloquetBasis: to_floquet_basis then from_floquet_basis at t={t} changes the state by {(rt - psif).norm():.2e}", {"t": t}))
+                    break
+            fm = qutip.FMESolver(fb, [(qutip.sigmax(), lambda w: 0.05 * (w > 0))], options={"atol": 1e-12, "rtol": 1e-10, "progress_bar": "", "store_states": True})
+            rho0 = psif.proj()
+            single = fm.run(rho0, tlf).states
+            for k0 in (2, 3, 4, 6):
+                again = qutip.FMESolver(fb, [(qutip.sigmax(), lambda w: 0.05 * (w > 0))], options={"atol": 1e-12, "rtol": 1e-10, "progress_bar": "", "store_states": True}).run(single[k0], tlf[k0:]).states
+                fm.start(single[k0], tlf[k0])
+                stepped = [fm.step(t) for t in tlf[k0 + 1:]]
+                rep.evaluations += 2
+                rep.count("relational-floquet")
+                e1 = max(float((a - b).norm()) for a, b in zip(again, single[k0:]))
+                e2 = max(float((a - b).norm()) for a, b in zip(stepped, single[k0 + 1:]))
+                if e1 > 1e-5 or e2 > 1e-5:
+                    viol.append(("floquet:restart", f"FMESolver restarted at t={tlf[k0]} from its own stored state: run differs from the single run by {e1:.2e}, start/step by {e2:.2e}", {"t0": float(tlf[k0])}))
+                    break
+    except core.CaseTimeout:
+        raise
+    except Exception as e:
+        viol.append(("floquet-raises", f"{type(e).__name__}: {e}"[:200], {}))
+    # options assigned to a used solver are the options of the next run, whatever the old values were
+    for old_m, new_m in (("adams", "vern7"), ("vern7", "adams"), ("dop853", "dop853"), ("lsoda", "bdf")):
+        base = {"method": old_m, "atol": 1e-11, "rtol": 1e-9, "nsteps": 5000, "progress_bar": ""}
+        given = {"method": new_m, "atol": 1e-11, "rtol": 1e-7, "nsteps": 5000, "progress_bar": ""}
+        try:
+            sv = qutip.SESolver(qutip.sigmax(), options=base)
+            sv.run(qutip.basis(2, 0), [0, 0.1])
+            sv.options = dict(given)
+            frs = qutip.SESolver(qutip.sigmax(), options=dict(given))
+        except Exception as e:
+            viol.append(("options-raises", f"{type(e).__name__}: {e}"[:200], {"old": old_m, "new": new_m}))
+            continue
+        rep.count("relational-options-kept")
+        for key in ("method", "atol", "rtol", "nsteps"):
+            rep.evaluations += 1
+            io = getattr(sv._integrator, "options", {})
+            if sv.options[key] != given[key] or sv.options[key] != frs.options[key] or (key != "method" and key in io and io[key] != given[key]):
+                viol.append((f"options-kept:{key}", f"solver built with {old_m} (atol 1e-11) given options {given}: option {key} is {sv.options[key]} (integrator: {io.get(key)}), a fresh solver has {frs.options[key]}", {"old": old_m, "new": new_m, "key": key}))
     rep.notes["relational_methods"] = methods
     return viol
 
